@@ -874,9 +874,14 @@ impl ExtendedType {
     /// The order of the returned set is unspecified but deterministic
     /// for a given apollo-compiler version.
     pub fn extensions(&self) -> IndexSet<&ExtensionId> {
-        self.iter_origins()
-            .filter_map(|origin| origin.extension_id())
-            .collect()
+        match self {
+            Self::Scalar(ty) => ty.extensions(),
+            Self::Object(ty) => ty.extensions(),
+            Self::Interface(ty) => ty.extensions(),
+            Self::Union(ty) => ty.extensions(),
+            Self::Enum(ty) => ty.extensions(),
+            Self::InputObject(ty) => ty.extensions(),
+        }
     }
 
     serialize_method!();
@@ -926,9 +931,11 @@ impl ObjectType {
     /// The order of the returned set is unspecified but deterministic
     /// for a given apollo-compiler version.
     pub fn extensions(&self) -> IndexSet<&ExtensionId> {
-        self.iter_origins()
-            .filter_map(|origin| origin.extension_id())
-            .collect()
+        merge_extension_orders(&[
+            extension_ids(self.directives.iter().map(|dir| &dir.origin)),
+            extension_ids(self.implements_interfaces.iter().map(|name| &name.origin)),
+            extension_ids(self.fields.values().map(|field| &field.origin)),
+        ])
     }
 
     serialize_method!();
@@ -956,9 +963,11 @@ impl InterfaceType {
     /// The order of the returned set is unspecified but deterministic
     /// for a given apollo-compiler version.
     pub fn extensions(&self) -> IndexSet<&ExtensionId> {
-        self.iter_origins()
-            .filter_map(|origin| origin.extension_id())
-            .collect()
+        merge_extension_orders(&[
+            extension_ids(self.directives.iter().map(|dir| &dir.origin)),
+            extension_ids(self.implements_interfaces.iter().map(|name| &name.origin)),
+            extension_ids(self.fields.values().map(|field| &field.origin)),
+        ])
     }
 
     serialize_method!();
@@ -981,9 +990,10 @@ impl UnionType {
     /// The order of the returned set is unspecified but deterministic
     /// for a given apollo-compiler version.
     pub fn extensions(&self) -> IndexSet<&ExtensionId> {
-        self.iter_origins()
-            .filter_map(|origin| origin.extension_id())
-            .collect()
+        merge_extension_orders(&[
+            extension_ids(self.directives.iter().map(|dir| &dir.origin)),
+            extension_ids(self.members.iter().map(|name| &name.origin)),
+        ])
     }
 
     serialize_method!();
@@ -1006,9 +1016,10 @@ impl EnumType {
     /// The order of the returned set is unspecified but deterministic
     /// for a given apollo-compiler version.
     pub fn extensions(&self) -> IndexSet<&ExtensionId> {
-        self.iter_origins()
-            .filter_map(|origin| origin.extension_id())
-            .collect()
+        merge_extension_orders(&[
+            extension_ids(self.directives.iter().map(|dir| &dir.origin)),
+            extension_ids(self.values.values().map(|value| &value.origin)),
+        ])
     }
 
     serialize_method!();
@@ -1031,12 +1042,61 @@ impl InputObjectType {
     /// The order of the returned set is unspecified but deterministic
     /// for a given apollo-compiler version.
     pub fn extensions(&self) -> IndexSet<&ExtensionId> {
-        self.iter_origins()
-            .filter_map(|origin| origin.extension_id())
-            .collect()
+        merge_extension_orders(&[
+            extension_ids(self.directives.iter().map(|dir| &dir.origin)),
+            extension_ids(self.fields.values().map(|field| &field.origin)),
+        ])
     }
 
     serialize_method!();
+}
+
+/// The extensions met in one list of components, in order of first appearance
+fn extension_ids<'a>(
+    origins: impl Iterator<Item = &'a ComponentOrigin>,
+) -> IndexSet<&'a ExtensionId> {
+    origins.filter_map(|origin| origin.extension_id()).collect()
+}
+
+/// Merge the extensions met in several lists of components (such as directives and fields)
+/// of one type into a single order that agrees with the order of every list,
+/// so that emitting the extensions in that order keeps the order of components in each list.
+///
+/// Extensions are applied one after the other when a schema is built,
+/// so the lists of a schema built from source agree with each other.
+/// If they do not (in a schema that was modified), lists given first win.
+fn merge_extension_orders<'a>(lists: &[IndexSet<&'a ExtensionId>]) -> IndexSet<&'a ExtensionId> {
+    let mut merged = IndexSet::with_hasher(Default::default());
+    let mut cursors = vec![0; lists.len()];
+    loop {
+        for (list, cursor) in lists.iter().zip(&mut cursors) {
+            while list
+                .get_index(*cursor)
+                .is_some_and(|id| merged.contains(id))
+            {
+                *cursor += 1
+            }
+        }
+        let mut heads = lists
+            .iter()
+            .zip(&cursors)
+            .filter_map(|(list, cursor)| list.get_index(*cursor).copied());
+        // An extension still preceded by another one in some list has to wait
+        let is_preceded = |id: &ExtensionId| {
+            lists
+                .iter()
+                .zip(&cursors)
+                .any(|(list, cursor)| list.get_index_of(id).is_some_and(|index| index > *cursor))
+        };
+        let next = heads
+            .clone()
+            .find(|id| !is_preceded(id))
+            .or_else(|| heads.next());
+        match next {
+            Some(id) => merged.insert(id),
+            None => return merged,
+        };
+    }
 }
 
 impl DirectiveList {
